@@ -375,6 +375,28 @@ func c13Degenerate(c *core.Ctx) {
 			return r
 		}, true},
 	}
+	// every capitalisation scheme and separator setting on the unhonourable ones
+	for _, cp := range []spg.CapScheme{spg.CSNone, spg.CSFirst, spg.CSAll, spg.CSOne, spg.CSRandom, "bogus"} {
+		for _, L := range []int{0, -1, -1 << 31} {
+			for _, withList := range []bool{true, false} {
+				for _, sep := range []spg.SFFunction{nil, spg.SFDigits1} {
+					cp, L, withList, sep := cp, L, withList, sep
+					name := fmt.Sprintf("WLRecipe{Length:%d, Capitalize:%q, list:%v, sepfunc:%v}", L, cp, withList, sep != nil)
+					cases = append(cases, wlCase{name, func() spg.WLRecipe {
+						var wl *spg.WordList
+						if withList {
+							wl = goodList()
+						}
+						r := *spg.NewWLRecipe(L, wl)
+						r.Capitalize, r.SeparatorFunc = cp, sep
+						return r
+					}, false})
+				}
+			}
+		}
+		cp := cp
+		cases = append(cases, wlCase{fmt.Sprintf("WLRecipe{Length:3, Capitalize:%q, no list}", cp), func() spg.WLRecipe { r := spg.WLRecipe{Length: 3, Capitalize: cp}; return r }, false})
+	}
 	for _, cs := range cases {
 		if !c.Mine() {
 			continue
